@@ -11,7 +11,7 @@ EXTENDS Naturals, Sequences, FiniteSets, TLC
 
 CONSTANT N
 Bundles == 1..N
-Kinds == {"resolvers", "type_resolvers", "scalars", "directives", "subscriptions"}
+Kinds == {"resolvers", "type_resolvers", "scalars", "directives", "subscriptions", "sdl"}   \* "sdl": the bundle's own definitions of the shared type names
 StepsOf == <<"regA", "regB", "cook">>
 KindsOfStep(s) == IF s = "regA" THEN {"resolvers", "type_resolvers"} ELSE IF s = "regB" THEN {"scalars", "directives", "subscriptions"} ELSE {}
 
@@ -33,8 +33,9 @@ Step(b) ==
      /\ pc' = [pc EXCEPT ![b] = @ + 1]
      /\ hist' = Append(hist, <<b, s>>)
      /\ IF s = "cook"
-        THEN /\ engines' = [engines EXCEPT ![b] = [cooked |-> TRUE, view |-> registry[b]]]   \* an engine depends on registry[its name] only
-             /\ UNCHANGED registry
+        THEN \* the SDL is registered under the name at cook time; the engine depends on registry[its name] only
+             /\ registry' = [registry EXCEPT ![b]["sdl"] = @ \cup {b}]
+             /\ engines' = [engines EXCEPT ![b] = [cooked |-> TRUE, view |-> registry'[b]]]
         ELSE /\ registry' = [registry EXCEPT ![b] = [k \in Kinds |-> IF k \in KindsOfStep(s) THEN @[k] \cup {b} ELSE @[k]]]
              /\ UNCHANGED engines
 RNext == \E b \in Bundles : Step(b)
